@@ -47,7 +47,7 @@ OUTER:
 			if m.waitDirtyIncomingCh != nil && // Merger is indeed asleep.
 				m.stackDirtyMid != nil &&
 				(m.stackDirtyTop == nil || len(m.stackDirtyTop.a) <= 0) {
-				m.NotifyMerger("from-persister", false)
+				m.notifyMergerNoWait("from-persister")
 			}
 
 			atomic.AddUint64(&m.stats.TotPersisterWaitBeg, 1)
